@@ -1,5 +1,6 @@
 import YtkModel.Wire
 import YtkModel.K8s
+import YtkModel.Builder
 open Lean
 
 namespace Ytk.C17
@@ -46,9 +47,20 @@ def tableCodec (tbl : List (Node × String)) : Codec where
   enc n := (tbl.find? (fun p => p.1 == n)).map (·.2)
   dec t := (tbl.find? (fun p => p.2 == t)).map (·.1)
 
+/-- an edit of the embedded document: through the root builder (`addAt`, `removeAt`), through the handle of
+    the nested container `Lookup(path)` finds (`hAdd`, `hRemove`; path "" = the root itself), or through the
+    handle of the nested list at `path` (`lAppend`, `lSet`, `lMustSet` in range, `lClear`).  The tree model has
+    no aliasing, so a handle is the position it was obtained at (the harness uses a retained handle only while
+    it is still the node at that position). -/
 inductive DocEdit where
   | addAt (path : String) (v : Node)
   | removeAt (path : String)
+  | hAdd (path key : String) (v : Node)
+  | hRemove (path key : String)
+  | lAppend (path : String) (v : Node)
+  | lSet (path : String) (i : Nat) (v : Node)
+  | lMustSet (path : String) (i : Nat) (v : Node)
+  | lClear (path : String)
 
 def docEditOfJson (j : Json) : Except String DocEdit := do
   let op ← Wire.getStr j "op"
@@ -56,11 +68,36 @@ def docEditOfJson (j : Json) : Except String DocEdit := do
   match op with
   | "addat" => pure (.addAt p (← Wire.getNode j "v"))
   | "removeat" => pure (.removeAt p)
+  | "hadd" => pure (.hAdd p (← Wire.getStr j "key") (← Wire.getNode j "v"))
+  | "hremove" => pure (.hRemove p (← Wire.getStr j "key"))
+  | "lappend" => pure (.lAppend p (← Wire.getNode j "v"))
+  | "lset" => pure (.lSet p (← Wire.getNat j "idx") (← Wire.getNode j "v"))
+  | "lmustset" => pure (.lMustSet p (← Wire.getNat j "idx") (← Wire.getNode j "v"))
+  | "lclear" => pure (.lClear p)
   | _ => throw s!"C17: unknown doc edit {op}"
 
-def applyDocEdit (n : Node) : DocEdit → Node
-  | .addAt p v => match n with | .cont kvs => .cont (addValueAt kvs p v) | x => x
-  | .removeAt p => match n with | .cont kvs => .cont (removeAt kvs p) | x => x
+def onCont (f : AMap Node → AMap Node) : Node → Node
+  | .cont kvs => .cont (f kvs)
+  | n => n
+
+/-- apply `f` to the container `Lookup(path)` finds ("" = the root) -/
+def atCont (d : AMap Node) (path : String) (f : AMap Node → AMap Node) : AMap Node :=
+  if path = "" then f d else updateAt d path (onCont f)
+
+def applyDocEditKvs (kvs : AMap Node) : DocEdit → AMap Node
+  | .addAt p v => addValueAt kvs p v
+  | .removeAt p => removeAt kvs p
+  | .hAdd p k v => atCont kvs p (fun c => add c k v)
+  | .hRemove p k => atCont kvs p (fun c => remove c k)
+  | .lAppend p v => updateAt kvs p (onList fun xs => listAppend xs v)
+  | .lSet p i v => updateAt kvs p (onList fun xs => listSet xs i v)
+  | .lMustSet p i v => updateAt kvs p (onList fun xs => if i < xs.length then xs.set i v else xs)
+  | .lClear p => updateAt kvs p (onList fun _ => [])
+
+def applyDocEdit (n : Node) (e : DocEdit) : Node :=
+  match n with
+  | .cont kvs => .cont (applyDocEditKvs kvs e)
+  | x => x
 
 /-- one history on ONE Document handle: (edits, Save, reopen-observe) per round; the handle
     (document and manifest as left by the previous Save) is carried into the next round -/
